@@ -340,7 +340,7 @@ class C19(Prop):
     id = 'C19'
     props_file = 'Props/C19.v'
     imports = ['Model.NodeProto', 'Model.NodeProtoObs']
-    quick_n = 120
+    quick_n = 90
     thorough_n = 1200
     rule = ('two real circuits.node.Node objects (caller: Node.add -> Client -> Protocol; callee: Node(port) -> Server -> '
             'Protocol) in two managers, joined by fake transports; the harness moves the written bytes in reads of '
